@@ -62,6 +62,7 @@ func ruleNumericReferenceDecoders(w *World, r *Report) {
 				}
 				d := dec{fn: fn, call: c, base: -1, k: -1}
 				baseParam, kParam := -1, -1
+				kAdj := int64(0)
 				if bv, ok := constInt(c.Common().Args[1]); ok {
 					d.base = bv
 				} else if p, ok := stripConv(c.Common().Args[1]).(*ssa.Parameter); ok {
@@ -73,8 +74,14 @@ func ruleNumericReferenceDecoders(w *World, r *Report) {
 						if !ok {
 							continue
 						}
-						// length < K, in either spelling: (len < K) true, or (len >= K) false
-						if !((bo.Op == token.LSS && a.Truth) || (bo.Op == token.GEQ && !a.Truth)) {
+						// length < K, in either spelling: (len < K) true, or (len >= K) false; or length <= K-1:
+						// (len <= K') true, (len > K') false, with K = K'+1
+						adj := int64(0)
+						switch {
+						case (bo.Op == token.LSS && a.Truth) || (bo.Op == token.GEQ && !a.Truth):
+						case (bo.Op == token.LEQ && a.Truth) || (bo.Op == token.GTR && !a.Truth):
+							adj = 1
+						default:
 							continue
 						}
 						sub, ok := stripConv(bo.X).(*ssa.BinOp)
@@ -83,9 +90,10 @@ func ruleNumericReferenceDecoders(w *World, r *Report) {
 						}
 						if sameValueLoose(sub.X, sl.High) && sameValueLoose(sub.Y, sl.Low) {
 							if k, ok := constInt(bo.Y); ok {
-								d.k = k
+								d.k = k + adj
 							} else if p, ok := stripConv(bo.Y).(*ssa.Parameter); ok {
 								kParam = paramIndex(fn, p)
+								kAdj = adj
 							}
 						}
 					}
@@ -114,7 +122,7 @@ func ruleNumericReferenceDecoders(w *World, r *Report) {
 							if kParam >= 0 && kParam < len(args) {
 								di.k = -1
 								if kv, ok := constInt(args[kParam]); ok {
-									di.k = kv
+									di.k = kv + kAdj
 								}
 							}
 							decs = append(decs, di)
